@@ -241,3 +241,21 @@ impl Future for ResponseFuture {
         }
     }
 }
+
+#[cfg(feature = "verif-hooks")]
+impl DiameterClient {
+    /// Verification hook: the non-TLS branch of `connect()` for an arbitrary stream.
+    pub fn verif_attach_stream<S>(&mut self, stream: S) -> ClientHandler
+    where
+        S: AsyncRead + AsyncWrite + Send + Unpin + 'static,
+    {
+        let (reader, writer) = tokio::io::split(stream);
+        let writer = Arc::new(Mutex::new(writer));
+        self.writer = Some(writer);
+        let msg_caches = Arc::clone(&self.msg_caches);
+        ClientHandler {
+            reader: Box::new(reader),
+            msg_caches,
+        }
+    }
+}
